@@ -76,30 +76,40 @@ class Expression(ABC):
     # Arithmetic operators - build expression trees
 
     def __add__(self, other: Expression | float | int) -> BinaryOp:
+        if _is_container(other):
+            return NotImplemented  # the vector / matrix operand decides (or rejects)
         return BinaryOp(self, _ensure_expr(other), "+")
 
     def __radd__(self, other: float | int) -> BinaryOp:
         return BinaryOp(_ensure_expr(other), self, "+")
 
     def __sub__(self, other: Expression | float | int) -> BinaryOp:
+        if _is_container(other):
+            return NotImplemented  # the vector / matrix operand decides (or rejects)
         return BinaryOp(self, _ensure_expr(other), "-")
 
     def __rsub__(self, other: float | int) -> BinaryOp:
         return BinaryOp(_ensure_expr(other), self, "-")
 
     def __mul__(self, other: Expression | float | int) -> BinaryOp:
+        if _is_container(other):
+            return NotImplemented  # the vector / matrix operand decides (or rejects)
         return BinaryOp(self, _ensure_expr(other), "*")
 
     def __rmul__(self, other: float | int) -> BinaryOp:
         return BinaryOp(_ensure_expr(other), self, "*")
 
     def __truediv__(self, other: Expression | float | int) -> BinaryOp:
+        if _is_container(other):
+            return NotImplemented  # the vector / matrix operand decides (or rejects)
         return BinaryOp(self, _ensure_expr(other), "/")
 
     def __rtruediv__(self, other: float | int) -> BinaryOp:
         return BinaryOp(_ensure_expr(other), self, "/")
 
     def __pow__(self, other: Expression | float | int) -> BinaryOp:
+        if _is_container(other):
+            return NotImplemented  # the vector / matrix operand decides (or rejects)
         return BinaryOp(self, _ensure_expr(other), "**")
 
     def __rpow__(self, other: float | int) -> BinaryOp:
@@ -437,6 +447,20 @@ class UnaryOp(Expression):
 
     def __repr__(self) -> str:
         return f"{self.op}({self.operand!r})"
+
+
+def _is_container(value: object) -> bool:
+    """True for vector / matrix containers, which are not scalar operands.
+
+    Wrapping one in a Constant would build a scalar node holding an object array
+    of Variables (``x * v`` evaluated to an array of unevaluated expressions).
+    """
+    from optyx.core.matrices import MatrixExpression, MatrixVariable
+    from optyx.core.vectors import VectorExpression, VectorVariable
+
+    return isinstance(
+        value, (VectorVariable, VectorExpression, MatrixVariable, MatrixExpression)
+    )
 
 
 def _ensure_expr(value: Expression | float | int | ArrayLike) -> Expression:
